@@ -1232,6 +1232,41 @@ func checkWarnings(p *Program, r *Report, pk *ssa.Package, runner *ssa.Function)
 			}
 		}
 	}
+	// or the whole list is appended to the log in one go (`runLogs = append(runLogs, warnings...)`), the result kept in
+	// the variable the deferred encoding reads
+	if runCall != nil && !logged {
+		for _, c := range callsIn(body) {
+			bi, ok := c.Common().Value.(*ssa.Builtin)
+			if !ok || bi.Name() != "append" || len(c.Common().Args) != 2 {
+				continue
+			}
+			whole := false
+			for _, o := range origins(c.Common().Args[1]) {
+				if ex, ok := o.(*ssa.Extract); ok {
+					if cc, ok := ex.Tuple.(*ssa.Call); ok && cc.Common().StaticCallee() == initialise {
+						whole = true
+					}
+				}
+			}
+			cv, isVal := c.(ssa.Value)
+			if !whole || !isVal || !c.Block().Dominates(runCall.Block()) {
+				continue
+			}
+			for _, ref := range refs(cv) {
+				st, ok := ref.(*ssa.Store)
+				if !ok || st.Val != cv {
+					continue
+				}
+				if a, ok := st.Addr.(*ssa.Alloc); ok {
+					for _, r2 := range refs(a) {
+						if _, isMC := r2.(*ssa.MakeClosure); isMC {
+							logged = true
+						}
+					}
+				}
+			}
+		}
+	}
 	nW++
 	if logged {
 		r.OK("R17.5", "sim.RunSingleModelJSON: every warning is logged before Run")
